@@ -162,7 +162,7 @@ func (d *Database) NewIterator(prefix []byte, withUpperBound bool) (db.Iterator,
 	)
 
 	for k := range d.db {
-		if strings.HasPrefix(k, pr) && (!withUpperBound || k < ub) {
+		if strings.HasPrefix(k, pr) && (!withUpperBound || upperBound == nil || k < ub) {
 			keys = append(keys, k)
 		}
 	}
